@@ -195,7 +195,9 @@ def read_batch_slice(prior_samples_file, columns, slice, units=None):
             # table_units = table_header_to_units(f.root[meta_path(path)])
             for i, name in enumerate(columns):
                 if name in units:
-                    batch[:, i] *= table_units[name].to(units[name])
+                    # (the values, not the number one: a logarithmic unit such as
+                    # dex(d) does not convert by a factor)
+                    batch[:, i] = table_units[name].to(units[name], batch[:, i])
 
     return batch
 
@@ -225,7 +227,9 @@ def read_batch_idx(prior_samples_file, columns, idx, units=None):
             # table_units = table_header_to_units(f.root[meta_path(path)])
             for i, name in enumerate(columns):
                 if name in units:
-                    batch[:, i] *= table_units[name].to(units[name])
+                    # (the values, not the number one: a logarithmic unit such as
+                    # dex(d) does not convert by a factor)
+                    batch[:, i] = table_units[name].to(units[name], batch[:, i])
 
     return batch
 
